@@ -114,9 +114,31 @@ type Stats struct {
 	Diverged   int64
 }
 
+// item is one pending execution: the parent's choices up to point i, then alternative alt.
+// The parent's choice and label slices are shared (immutable) between its children, so the
+// pending set costs O(children) and not O(children x depth).
 type item struct {
-	prefix []int
+	base   []int
 	labels []string
+	i, alt int
+	root   bool
+}
+
+func (it item) prefix() []int {
+	if it.root {
+		return nil
+	}
+	np := make([]int, it.i+1)
+	copy(np, it.base[:it.i])
+	np[it.i] = it.alt
+	return np
+}
+
+func (it item) prefixLabels() []string {
+	if it.root || it.labels == nil {
+		return nil
+	}
+	return it.labels[:it.i+1]
 }
 
 // Explore enumerates all executions within bounds. exec must run ONE execution
@@ -136,13 +158,14 @@ func Explore(b Bounds, checkLabels bool, exec func(r *Run) bool) Stats {
 //go:norace
 func ExploreShard(b Bounds, checkLabels bool, shard, n int, exec func(r *Run) bool) Stats {
 	var st Stats
-	stack := []item{{}}
+	stack := []item{{root: true}}
 	level1 := 0
 	for len(stack) > 0 {
 		it := stack[len(stack)-1]
 		stack = stack[:len(stack)-1]
-		r := &Run{prefix: it.prefix, labels: it.labels}
-		root := len(it.prefix) == 0
+		pre := it.prefix()
+		r := &Run{prefix: pre, labels: it.prefixLabels()}
+		root := it.root
 		r.Foreign = root && shard != 0
 		cont := exec(r)
 		st.Executions++
@@ -159,8 +182,13 @@ func ExploreShard(b Bounds, checkLabels bool, shard, n int, exec func(r *Run) bo
 		// children: deviate at any point past the prefix
 		var used Bounds
 		total := 0
+		choices := r.Choices()
+		var labels []string
+		if checkLabels {
+			labels = r.Labels()
+		}
 		for i, p := range r.points {
-			if i >= len(it.prefix) {
+			if i >= len(pre) {
 				for alt := len(p.kinds) - 1; alt >= 1; alt-- {
 					k := p.kinds[alt]
 					if k != vrt.KFree && (used[k]+1 > b[k] || (b[0] > 0 && total+1 > b[0])) {
@@ -173,19 +201,7 @@ func ExploreShard(b Bounds, checkLabels bool, shard, n int, exec func(r *Run) bo
 							continue
 						}
 					}
-					np := make([]int, i+1)
-					for j := 0; j < i; j++ {
-						np[j] = r.points[j].chosen
-					}
-					np[i] = alt
-					var nl []string
-					if checkLabels {
-						nl = make([]string, i+1)
-						for j := 0; j <= i; j++ {
-							nl[j] = r.points[j].label
-						}
-					}
-					stack = append(stack, item{prefix: np, labels: nl})
+					stack = append(stack, item{base: choices, labels: labels, i: i, alt: alt})
 				}
 			}
 			if k := p.kinds[p.chosen]; k != vrt.KFree {
